@@ -59,7 +59,7 @@ func GetDecompressor(compression conformancev1.Compression) (connect.Decompresso
 	case conformancev1.Compression_COMPRESSION_UNSPECIFIED, conformancev1.Compression_COMPRESSION_IDENTITY:
 		return &noOpDecompressor{}, nil
 	case conformancev1.Compression_COMPRESSION_GZIP:
-		return &gzip.Reader{}, nil
+		return &gzipDecompressor{}, nil
 	case conformancev1.Compression_COMPRESSION_BR:
 		return NewBrotliDecompressor(), nil
 	case conformancev1.Compression_COMPRESSION_ZSTD:
@@ -71,6 +71,31 @@ func GetDecompressor(compression conformancev1.Compression) (connect.Decompresso
 	default:
 		return nil, fmt.Errorf("unsupported compression scheme %v", compression)
 	}
+}
+
+// gzipDecompressor is a thin wrapper around a gzip Reader. A zero gzip.Reader
+// has no underlying flate reader until a Reset succeeded in reading a gzip
+// header, and its Close method dereferences that reader unconditionally. So
+// Close must not be forwarded if every Reset so far failed (e.g. on malformed
+// or empty input).
+type gzipDecompressor struct {
+	gzip.Reader
+	initialized bool
+}
+
+func (c *gzipDecompressor) Reset(rdr io.Reader) error {
+	err := c.Reader.Reset(rdr)
+	if err == nil {
+		c.initialized = true
+	}
+	return err
+}
+
+func (c *gzipDecompressor) Close() error {
+	if !c.initialized {
+		return nil
+	}
+	return c.Reader.Close()
 }
 
 type noOpCompressor struct {
